@@ -1,4 +1,4 @@
 INIT Init
 NEXT Next
-INVARIANTS OnlyAuthenticChanges HelloConfined DisconnectConfined DisconnectComplete
+INVARIANTS OnlyAuthenticChanges HelloConfined DisconnectConfined DisconnectComplete LostOnlyAuthenticChanges LostOfflineConfined LostDisconnectConfined
 ACTION_CONSTRAINT DumpEdge
